@@ -39,6 +39,7 @@ Time is kept in integer milliseconds in the model (exact ">= 1 s" decisions) and
 as ms / 1000.0.
 """
 import asyncio
+import os
 
 from .. import fs as simfs
 from ..asgi_peer import AsgiHttpPeer
@@ -61,7 +62,8 @@ MOD_KINDS = [k for _, k in KINDS[1:]]
 INM_FORMS = [(2, "none"), (3, "strong"), (2, "weak"), (3, "list"), (1, "star")]
 POS = ["first", "middle", "last"]
 SEPS = [", ", ",", " , "]
-JUNK = [('"0a1b2c3d"', '"junk-2"'), ('W/"0a1b2c3d"', '"junk-2"'), ('"0a1b2c3d"', 'W/"junk-2"'), ('W/"0a1b2c3d"', 'W/"junk-2"')]
+JUNK = [('"0a1b2c3d"', '"junk-2"'), ('W/"0a1b2c3d"', '"junk-2"'), ('"0a1b2c3d"', 'W/"junk-2"'), ('W/"0a1b2c3d"', 'W/"junk-2"'),
+        ('"caf\xe9-7"', 'W/"\xfc"')]       # entity tags may contain obs-text (bytes >= 0x80)
 SEND_LATS = (0.0, 0.0, 0.0, 0.2)
 
 
@@ -69,6 +71,9 @@ def content(fidx, version, size):
     head = b"<f%d v%d>" % (fidx, version)
     body = head + bytes(97 + ((i + version * 7 + fidx) % 26) for i in range(max(0, size - len(head))))
     return body[:size]
+
+
+OTHER_CWD = next(d for d in ("/usr/lib/python3", "/usr/share/doc", "/usr/lib", "/usr/share", "/") if os.path.isdir(d))
 
 
 class FileModel:
@@ -207,7 +212,9 @@ class C14(Prop):
             nreq[f] += 1
             ops.append(op)
         return {"app": app, "iface": iface, "nfiles": nfiles, "frac": frac, "sizes": sizes, "zerocopy": zerocopy, "ops": ops,
-                "cacheability": t.choice(["public", "public", "private", "no-cache", "no-store"]), "max_age": t.choice([600, 0, 31536000])}
+                "cacheability": t.choice(["public", "public", "private", "no-cache", "no-store"]), "max_age": t.choice([600, 0, 31536000]),
+                # the directory is given relative to the cwd and the process changes its working directory later (daemonising, a job runner)
+                "relative_dir": t.draw(4) == 0, "chdir_before": t.draw(n + 1) if t.draw(3) == 0 else None}
 
     def describe(self, plan, variant=None):
         return {"plan": jsonable(plan), "variant": jsonable(variant)}
@@ -247,14 +254,26 @@ class C14(Prop):
             else:
                 from baize.asgi import Files, Pages
             # configuration must not matter for revalidation
-            apps[iface] = (Files if plan["app"] == "Files" else Pages)(fs.root, cacheability=plan.get("cacheability", "public"), max_age=plan.get("max_age", 600))
+            directory = fs.root
+            if plan.get("relative_dir"):
+                # the application is configured with a path relative to the working directory it is started in
+                directory = os.path.relpath(fs.root, os.getcwd())
+                ctx.probe("relative_directory")
+            apps[iface] = (Files if plan["app"] == "Files" else Pages)(directory, cacheability=plan.get("cacheability", "public"), max_age=plan.get("max_age", 600))
         ctx.sch("start", plan["app"], plan["iface"], now - BASE_MS, [f.size for f in files])
 
         entries = [[] for _ in files]      # per file: cache entry held after its k-th request (None = nothing held)
         hist = []                          # human readable history for violation details
         total_adv = 0
+        cwd0 = os.getcwd()
         try:
             for k, op in enumerate(plan["ops"]):
+                if plan.get("chdir_before") == k:
+                    ctx.fault("process_changes_working_directory")
+                    # a directory from which the start-up-relative path does NOT lead to the same place (from "/" a
+                    # leading ".." is absorbed and it would)
+                    os.chdir(OTHER_CWD)
+                    hist.append("chdir(%r)" % OTHER_CWD)
                 if op["adv"]:
                     now += op["adv"]
                     total_adv += op["adv"]
@@ -270,6 +289,7 @@ class C14(Prop):
                 else:
                     self._modify(ctx, fs, f, op, now, hist)
         finally:
+            os.chdir(cwd0)
             ctx.sim_time += total_adv / 1000.0
 
     # -- modifications ---------------------------------------------------------
